@@ -48,7 +48,8 @@ structure Inv2 (cfg : Cfg) (s : State) : Prop where
 theorem inv2_init (cfg : Cfg) : Inv2 cfg init := by
   constructor <;> simp [init, inTransit]
 
-macro "close_inv2" : tactic => `(tactic| (constructor <;> (try simp_all [inTransit]) <;> grind [inTransit]))
+macro "close_inv2" : tactic => `(tactic| (constructor <;> (try dsimp only) <;>
+  first | grind [inTransit] | ((try simp_all [inTransit]) <;> grind [inTransit])))
 
 theorem inv2_srcRet {cfg : Cfg} {s s' : State} (ev : _) (h1 : Inv1 cfg s) (hi : Inv2 cfg s)
     (h : step good cfg s (.srcRet ev) = some s') : Inv2 cfg s' := by
